@@ -347,20 +347,27 @@ class Parser:
         self.expect("<=")
         if self.at("transport", "reject", "inertial", "guarded"):
             raise Unsupported("delay mechanism")
-        waves = [(self.expression(), None)]
+        waves = [(self.waveform(), None)]
         if self.at("after"):
             raise Unsupported("after clause")
         while self.accept("when"):
             cond = self.expression()
             waves[-1] = (waves[-1][0], cond)
             if self.accept("else"):
-                waves.append((self.expression(), None))
+                waves.append((self.waveform(), None))
             else:
                 break
         self.expect(";")
         if len(waves) == 1 and waves[0][1] is None:
             return N("conc_assign", line, label=label, target=target, value=waves[0][0])
         return N("cond_assign", line, label=label, target=target, waves=waves)
+
+    def waveform(self):
+        if self.at("unaffected"):
+            line = self.t.line
+            self.p += 1
+            return N("unaffected", line)
+        return self.expression()
 
     def _looks_like_assignment(self):
         # scan to ';' at depth 0 looking for '<='
@@ -465,7 +472,7 @@ class Parser:
         self.expect("<=")
         arms = []
         while True:
-            val = self.expression()
+            val = self.waveform()
             self.expect("when")
             choices = self.choices()
             arms.append((val, choices))
